@@ -278,4 +278,6 @@ func genC04(r *rng, tier string, emit func(string)) {
 	for i := 0; i < nbig; i++ {
 		emit(fmt.Sprintf("sm3big %d %d %d %d %d %d", r.intn(1<<30), big+r.intn(1000), r.intn(5000), r.intn(3), 64*r.intn(100), 1+r.intn(100000)))
 	}
+	// crypto/hmac, x509.pbkdf, gmtls pHash / GM PRF / record MAC through the hash.Hash interface (Model.HMAC)
+	c04hGen(r, tier, emit)
 }
